@@ -1,7 +1,8 @@
 #!/bin/sh
 # C19, memory-safety sentence (validation, not proof): run the `buffer` harness domain — the same
 # runner, generator and property oracle as the native harness — and samples of the request files of
-# the byte-level domains that write through the buffer layer (`packer`, `huffman`, `packet6`) under
+# all other checks' domains (see tools/c19_miri_select.py for what is left out and why:
+# C/C++ behind FFI, hash-form sweeps, long inputs) under
 # Miri, comparing every output line with the Lean model's.
 #
 #   tools/c19_miri.sh [seed]     (VERIF_REPO selects the repository, default /repo; seed default
@@ -10,8 +11,8 @@
 # Needs the native harness and the driver (built by any `./check`), and `cargo +nightly miri`.
 # Prints one line `MIRI-VERDICT …`, writes evidence/C19-miri.json, and exits non-zero iff Miri
 # (Tree Borrows) reports undefined behaviour, or an output line differs from the model's, or a
-# property oracle fails, or a run does not finish.  Wall time about 10–15 min (the four runs are
-# parallel; the `buffer` one dominates).
+# property oracle fails, or a run does not finish.  Wall time about 10–12 min on a quiet machine (the
+# nineteen runs are parallel; the `buffer` one dominates).
 set -u
 cd "$(dirname "$0")/.."
 REPO=${VERIF_REPO:-/repo}
@@ -21,17 +22,32 @@ export CARGO_NET_OFFLINE=true
 mkdir -p run
 H=harness/target/debug/tw-harness
 D=lean/.lake/build/bin/twdrv
-if [ ! -x "$H" ] || [ ! -x "$D" ]; then echo "MIRI-VERDICT not run: build first (./check C19 quick)"; exit 2; fi
-DOMS="buffer packer huffman packet6"
+if [ ! -x "$H" ] || [ ! -x "$D" ]; then
+  # (./check calls this before its own harness build step: build what is missing)
+  python3 -c "
+import sys
+sys.path.insert(0, 'tools')
+import vlib
+vlib.gen_sources()
+vlib.extract()
+vlib.lake_build(['twdrv'])
+vlib.cargo_build()
+" > run/miri.build.log 2>&1
+fi
+if [ ! -x "$H" ] || [ ! -x "$D" ]; then echo "MIRI-VERDICT not run: native harness or driver missing (see run/miri.build.log)"; exit 2; fi
+OTHERS="packer huffman packet6 packet7 snap teehist demo demohl datafile map browse gamenet recv snapmgr snapmgrc conn6 conn7 net"
+DOMS="buffer $OTHERS"
 $H gen buffer miri "$SEED" > run/miri.buffer.req || exit 2
-for d in packer huffman packet6; do
-  $H gen $d quick "$SEED" | python3 tools/c19_miri_select.py $d 20 > run/miri.$d.req || exit 2
+for d in $OTHERS; do
+  $H gen $d quick "$SEED" | python3 tools/c19_miri_select.py $d $D > run/miri.$d.req || exit 2
 done
 for d in $DOMS; do
   $D $d < run/miri.$d.req > run/miri.$d.model || exit 2
 done
 sed "s#@REPO@#$REPO#" harness-miri/Cargo.toml.in > harness-miri/Cargo.toml
-sed "s#@REPO@#$REPO#" harness-miri/stub-huffman-reference/Cargo.toml.in > harness-miri/stub-huffman-reference/Cargo.toml
+for st in stub-huffman-reference stub-snapshot-reference; do  # (stub-zlib-minimal needs no path)
+  sed "s#@REPO@#$REPO#" harness-miri/$st/Cargo.toml.in > harness-miri/$st/Cargo.toml
+done
 cp "$REPO/Cargo.lock" harness-miri/Cargo.lock
 cd harness-miri
 T0=$(date +%s)
@@ -41,8 +57,13 @@ MIRIFLAGS="$TB" cargo +nightly miri run --offline --bin sb_repro > ../run/miri.s
 SBTB_RC=$?
 MIRIFLAGS="$TB" cargo +nightly miri run --offline --bin tw-harness-miri -- packer /dev/null /dev/null > /dev/null 2>&1
 for d in $DOMS; do
-  ( MIRIFLAGS="$TB" cargo +nightly miri run --offline --bin tw-harness-miri -- $d ../run/miri.$d.req ../run/miri.$d.model > ../run/miri.$d.log 2>&1
-    echo "EXIT $?" >> ../run/miri.$d.log ) &
+  # Miri deliberately returns short reads from files; the `buffer` model assumes that a regular file
+  # delivers what is asked for and left (as the kernel does), so that run switches the short reads off
+  X=""; [ "$d" = buffer ] && X=" -Zmiri-no-short-fd-operations"
+  ( S=$(date +%s)
+    MIRIFLAGS="$TB$X" cargo +nightly miri run --offline --bin tw-harness-miri -- $d ../run/miri.$d.req ../run/miri.$d.model > ../run/miri.$d.log 2>&1
+    echo "EXIT $?" >> ../run/miri.$d.log
+    echo "SECS $(( $(date +%s) - S ))" >> ../run/miri.$d.log ) &
 done
 # the aliasing verdict of the default model (Stacked Borrows) on a minimal safe client
 MIRIFLAGS="-Zmiri-disable-isolation" cargo +nightly miri run --offline --bin sb_repro > ../run/miri.sb.log 2>&1
@@ -53,7 +74,22 @@ cd ..
 python3 - "$SEED" "$REPO" "$((T1 - T0))" "$SB_RC" "$SBTB_RC" <<'PY'
 import json, re, sys
 seed, repo, secs, sb_rc, sbtb_rc = sys.argv[1:]
-doms = ["buffer", "packer", "huffman", "packet6"]
+doms = ["buffer", "packer", "huffman", "packet6", "packet7", "snap", "teehist", "demo", "demohl", "datafile", "map",
+        "browse", "gamenet", "recv", "snapmgr", "snapmgrc", "conn6", "conn7", "net"]
+NOT_COVERED = {
+    "huffman": "operations that print the C++ reference's answer (rd, rc), the hash sweeps, the whole-table walks tiefreq/repr (time); the reference itself is a stand-in",
+    "snap": "pair/sweep (they consult the C++ snapshot reference through FFI)",
+    "teehist": "`file` with a fragmentation other than whole (socket pair + writer thread: Miri reports the blocking read as a deadlock), bulk forms sweep/all2",
+    "datafile": "the real zlib (C behind FFI) — replaced for the whole crate graph by a pure-Rust inflate (stub-zlib-minimal, a port of the driver's decoder); sweeps not run",
+    "map": "the real zlib (same stand-in); only the shortest inputs (a map request takes ~45 s under Miri)",
+    "demo": "first sessions only; sweep/mutall not run",
+    "demohl": "first sessions only; mutall not run",
+    "browse": "hash-form sweeps (mfh, hc, hs)",
+    "gamenet": "hash-form sweeps (hobjpos, hbody)",
+    "recv": "first sessions only", "snapmgr": "first sessions only", "snapmgrc": "first sessions only",
+    "conn6": "first sessions only", "conn7": "first sessions only", "net": "first sessions only (sessions with sweep lines skipped)",
+    "buffer": "hash-form sweeps, capacities above 4",
+}
 runs, bad = {}, []
 for d in doms:
     try:
@@ -63,11 +99,23 @@ for d in doms:
     m = re.findall(r"^MIRI-SUMMARY (.*)$", log, re.M)
     kv = dict(p.split("=") for p in m[-1].split()) if m else {}
     ex = re.findall(r"^EXIT (\d+)$", log, re.M)
+    sec = re.findall(r"^SECS (\d+)$", log, re.M)
     r = {"exit": int(ex[-1]) if ex else -1, "undefined_behavior_reports": log.count("Undefined Behavior"),
-         "unsupported_operation_reports": log.count("unsupported operation"), "finished": bool(m)}
+         "unsupported_operation_reports": log.count("unsupported operation"), "finished": bool(m),
+         "wall_s": int(sec[-1]) if sec else None}
     for k, v in kv.items():
         r[k] = int(v) if v.isdigit() else v
     r["first_diffs"] = re.findall(r"^(?:DIFF|FAIL) .*$", log, re.M)[:3]
+    try:
+        ops = {}
+        for l in open("run/miri.%s.req" % d):
+            if l.strip():
+                ops[l.split()[0]] = ops.get(l.split()[0], 0) + 1
+        r["operations"] = ops
+    except FileNotFoundError:
+        pass
+    if d in NOT_COVERED:
+        r["not_covered"] = NOT_COVERED[d]
     runs[d] = r
     if r["undefined_behavior_reports"] or not r["finished"] or r["exit"] != 0:
         bad.append(d)
@@ -78,7 +126,8 @@ except FileNotFoundError:
 sbm = re.search(r"Undefined Behavior: [^\n]*", sb)
 ev = {
     "property_id": "C19", "part": "memory-safety sentence (validation only)", "seed": int(seed), "repo": repo,
-    "tool": "cargo +nightly miri run (harness-miri: harness/src/d_{buffer,packer,huffman,packet6}.rs + the repository crates; the C++ huffman reference is replaced by a stand-in)",
+    "tool": "cargo +nightly miri run (harness-miri: every harness/src/d_*.rs except d_map.rs + the repository crates; the C++ huffman and snapshot references are replaced by stand-ins)",
+    "foreign_code_replaced_by_stand_ins": "zlib (pure-Rust inflate), C++ huffman reference (answers with the Rust implementation), C++ snapshot reference (types only; its operations are not sampled), mallopt (no-op)",
     "flags": "-Zmiri-disable-isolation -Zmiri-tree-borrows", "wall_s": int(secs), "tree_borrows_runs": runs,
     "stacked_borrows_minimal_client": {"bin": "harness-miri/src/bin/sb_repro.rs", "exit": int(sb_rc),
                                        "first_report": sbm.group(0) if sbm else None,
@@ -91,8 +140,8 @@ with open("evidence/C19-miri.json", "w") as f:
 parts = []
 for d in doms:
     r = runs[d]
-    parts.append("%s: ub=%d requests=%s disagreements=%s oracle_fails=%s%s" % (
-        d, r["undefined_behavior_reports"], r.get("requests", "?"), r.get("disagreements", "?"), r.get("oracle_fails", "?"),
+    parts.append("%s %s req ub=%d diff=%s orc=%s%s" % (
+        d, r.get("requests", "?"), r["undefined_behavior_reports"], r.get("disagreements", "?"), r.get("oracle_fails", "?"),
         "" if r["finished"] else " DID-NOT-FINISH"))
 print("MIRI-VERDICT tree-borrows %s (%ss) | %s | stacked-borrows minimal client: exit=%s (aliasing report, see notes/buffer.md; tree-borrows exit=%s)" % (
     ev["verdict"], secs, " ; ".join(parts), sb_rc, sbtb_rc))
